@@ -95,7 +95,7 @@ class EngineCheck:
         self.notes = []
 
     # -- running -------------------------------------------------------------------------------
-    def run_and_validate(self, behs, geom="tiny", batch_atomic=False, chunk=None):
+    def run_and_validate(self, behs, geom="tiny", batch_atomic=False, chunk=None, drop=("reclaim",)):
         old = E.CHUNK
         if chunk:
             E.CHUNK = chunk
@@ -106,7 +106,10 @@ class EngineCheck:
         missing = [b["id"] for b in behs if b["id"] not in traces]
         if missing:
             raise C.ToolError("%d behaviours produced no trace (driver failure), e.g. %s" % (len(missing), missing[:3]))
-        verd, stats = E.validate(traces, batch_atomic=batch_atomic, tag=self.pid.lower() + "v")
+        verd, stats = E.validate(traces, batch_atomic=batch_atomic, tag=self.pid.lower() + "v", drop=drop)
+        if drop:
+            # indexes in verdicts refer to the filtered event lists
+            traces = {g: [e for e in evs if e.get("ev") not in drop] for g, evs in traces.items()}
         return traces, verd, stats
 
     def diagnose(self, beh, events, v, batch_atomic=False):
